@@ -531,8 +531,22 @@ class TdlImpulseResponse:
         # independently for each column (second dimension), which
         # corresponds to the second dimension is the time dimension (as the
         # channel response changes in time)
-        freq_response = np.fft.fft(
-            self._get_samples_including_the_extra_zeros(), fft_size, axis=0)
+        tap_values = self._get_samples_including_the_extra_zeros()
+        num_taps = tap_values.shape[0]
+        if num_taps > fft_size:
+            # The frequency response sampled at `fft_size` points is the DFT
+            # of the impulse response aliased in the delay domain (a tap with
+            # delay `d` falls on delay `d % fft_size`). Passing the longer
+            # impulse response directly to np.fft.fft would instead discard
+            # the taps with delay >= fft_size.
+            num_blocks = -(-num_taps // fft_size)
+            padded = np.zeros((num_blocks * fft_size, ) + tap_values.shape[1:],
+                              dtype=complex)
+            padded[:num_taps] = tap_values
+            tap_values = np.sum(np.reshape(
+                padded, (num_blocks, fft_size) + tap_values.shape[1:]),
+                                axis=0)
+        freq_response = np.fft.fft(tap_values, fft_size, axis=0)
         return freq_response
 
     def __mul__(self, value: float) -> "TdlImpulseResponse":
